@@ -79,3 +79,22 @@ package utils
 //@ ensures[C20,C06,C17] (result == "Beidou") == (messageType == 1124 || messageType == 1127)
 //@ ensures[C20,C06,C17] (result == "NavIC/IRNSS") == (messageType == 1134 || messageType == 1137)
 //@ ensures[C20,C06,C17] (result == "unknown constellation") == !isMSM(messageType)
+
+// Carrier wavelength = c / frequency for the signal ids with a documented frequency
+// (the library's tables are the reference), 0 otherwise.
+//@ define wl(f) = 299792458.0 / f
+//@ func GetSignalWavelength
+//@ ensures[C08] constellation == "GPS" && (signalID == 2 || signalID == 3 || signalID == 4 || signalID == 30 || signalID == 31 || signalID == 32) ==> near(result, wl(1575420000.0), 1)
+//@ ensures[C08] constellation == "GPS" && (signalID == 8 || signalID == 9 || signalID == 10 || signalID == 15 || signalID == 16 || signalID == 17) ==> near(result, wl(1227600000.0), 1)
+//@ ensures[C08] constellation == "GPS" && (signalID == 22 || signalID == 23 || signalID == 24) ==> near(result, wl(1176450000.0), 1)
+//@ ensures[C08] constellation == "Galileo" && 2 <= signalID && signalID <= 6 ==> near(result, wl(1575420000.0), 1)
+//@ ensures[C08] constellation == "Galileo" && 8 <= signalID && signalID <= 12 ==> near(result, wl(1278750000.0), 1)
+//@ ensures[C08] constellation == "Galileo" && 14 <= signalID && signalID <= 16 ==> near(result, wl(1207140000.0), 1)
+//@ ensures[C08] constellation == "Galileo" && 18 <= signalID && signalID <= 20 ==> near(result, wl(1191795000.0), 1)
+//@ ensures[C08] constellation == "Galileo" && 22 <= signalID && signalID <= 24 ==> near(result, wl(1176450000.0), 1)
+//@ ensures[C08] constellation == "Glonass" && (signalID == 2 || signalID == 3) ==> near(result, wl(1602000000.0), 1)
+//@ ensures[C08] constellation == "Glonass" && (signalID == 8 || signalID == 9) ==> near(result, wl(1246000000.0), 1)
+//@ ensures[C08] constellation == "Beidou" && 2 <= signalID && signalID <= 4 ==> near(result, wl(1561098000.0), 1)
+//@ ensures[C08] constellation == "Beidou" && 8 <= signalID && signalID <= 10 ==> near(result, wl(1268520000.0), 1)
+//@ ensures[C08] constellation == "Beidou" && 14 <= signalID && signalID <= 16 ==> near(result, wl(1176450000.0), 1)
+//@ ensures[C08] result >= 0.0
